@@ -9,8 +9,13 @@ placement_finish_valid_partial).
 Lean part (Props/C19.lean): the escaping contract of the serializer (`unescape (escape s) = s`, output
 free of raw `< > & "`) and the mark-nesting discipline of `serialize_fragment` (model PM/Dom.lean),
 tied by exact correspondence of the serialised HTML of generated documents.
-Search (named as such): termination (per-call alarm) and no-crash of DOM walking, rule matching,
-context expressions, whitespace handling and style parsing on generated HTML; validity of the parsed
+Whole-parse tie (PM/DomWalk.lean): the DOM walk itself — add_all / add_dom / add_text_node / add_element /
+add_element_by_rule / read_styles / leaf_fallback / ignore_fallback / normalize_list / match_tag / match_style — runs in the
+model over an oracle-annotated abstract DOM (the oracle holds only lxml / cssselect / `re` / callback answers); for every
+generated HTML the model's list of calls into the placement core and its final document are compared with the real parse
+(theorems parse_total, parse_valid, parse_no_internal, context_rules_apply_exactly in Props/C19.lean); `schema_rules` ordering is
+tied too (schema_rules_order), and the decidable guards of parse_no_internal are evaluated on every input of the tie.
+Search (named as such): termination (per-call alarm) and no-crash of lxml / cssselect / `re` on generated HTML; validity of the parsed
 document (check() + independent validator); context-restricted rules apply exactly where the open
 ancestors match; serialise → parse round trip on whitespace-normal documents of the bundled schemas.
 """
@@ -340,6 +345,7 @@ class RecordingParseContext(ParseContext):
         self._events, self._obs, self._mark_ids, self._keep = [], [], {}, []
         self._result = None
         self._info = REC["info"]
+        self._snapshot = None       # the oracle-annotated abstract DOM, taken when the walk starts (first add_all)
         super().__init__(parser, options, is_open)
         self._depth = 0
         self._init = {"isOpen": bool(is_open), "pw": options.preserve_whitespace, "topOpen": bool(options.top_open)}
@@ -422,6 +428,17 @@ class RecordingParseContext(ParseContext):
             self._supported = False      # never called by the DOM walk directly
         return ParseContext.enter_inner(self, *a, **k)
 
+    def add_all(self, parent, start_index=None, end_index=None):
+        if self._snapshot is None:
+            # the tree the walk sees: `parse` has made its lxmltext nodes, `normalize_list` has not touched anything yet
+            self._snapshot = False
+            if REC.get("oracle") and start_index is None and end_index is None:
+                try:
+                    self._snapshot = DomOracle(self._info, self.parser).request(parent)
+                except Exception as e:  # noqa: BLE001  (a callback of the oracle itself failed: no model request)
+                    self._snapshot = {"_unsupported": "oracle: " + type(e).__name__ + ": " + str(e)[:100]}
+        return ParseContext.add_all(self, parent, start_index, end_index)
+
     def finish(self):
         self._depth += 1
         try:
@@ -431,9 +448,9 @@ class RecordingParseContext(ParseContext):
         return self._result
 
 
-def recorded(info, fn):
+def recorded(info, fn, oracle=True):
     """run fn() with the recording subclass installed; returns (outcome, recorder instances)"""
-    REC["info"], REC["instances"] = info, []
+    REC["info"], REC["instances"], REC["oracle"] = info, [], oracle
     saved = from_dom_mod.ParseContext
     from_dom_mod.ParseContext = RecordingParseContext
     try:
@@ -469,6 +486,370 @@ def placement_compare(ctx, replay, info, pc, out, kind):
     else:
         ctx.count("placement:agree")
 
+
+# ---------------------------------------------------------------------------------------------
+# whole-parse tie of the DOM walk (PM/DomWalk.lean: addAll / addDom / addTextNode / addElement / readStyles / …)
+#
+# The model walks an abstract DOM that carries, as an oracle, every answer the real walk gets from lxml / cssselect /
+# `re` / Python callbacks: per element the tag rules whose selector + namespace match (`from_dom.matches`) with the
+# answer of their `get_attrs`, the `content_element` subtree / `get_content` nodes; per `style` attribute the
+# declarations (`from_dom.parse_styles`) with the answers of the style rules' `get_attrs`; per rule the graph of its
+# `clear_mark` on every mark the rules can create here.  Everything else — which rule is tried when, `context`
+# expressions, ignore / skip / close_parent / consuming, tag tables, `normalize_list`, whitespace handling, pending
+# marks, every call into the placement core — is the model's.
+
+LIST_RULE_RE = re.compile(r"^(ul|ol)\b")
+
+
+def _ga(fn, arg):
+    if fn is None:
+        return None
+    try:
+        r = fn(arg)
+    except Exception:  # noqa: BLE001
+        return ["x"]
+    if r is False:
+        return False
+    return ["a", _enc_attrs(r)]
+
+
+class DomOracle:
+    def __init__(self, info, parser):
+        self.info, self.parser, self.schema = info, parser, parser.schema
+        self.unsupported = None
+        self.mark_seeds = []      # (mark name, attrs) every mark rule can be applied with here
+        self.elements = 0
+        self.features = set()
+        for r in list(parser._tags) + list(parser._styles):
+            if r.mark is not None and r.get_attrs is None:
+                self.mark_seeds.append((r.mark, r.attrs))
+            if r.skip is not None and not isinstance(r.skip, bool):
+                self.unsupported = "skip is a DOM node"
+            if r.content_element is not None and not callable(r.content_element):
+                self.unsupported = "content_element is not a callable"
+        eq_tags = any(a == b for i, a in enumerate(parser._tags) for b in parser._tags[:i])
+        eq_styles = any(a == b for i, a in enumerate(parser._styles) for b in parser._styles[:i])
+        if eq_tags or eq_styles:
+            self.unsupported = "two rules are =="      # `_tags.index(after)` finds the earlier one
+
+    def ref(self, name, table):
+        return None if name is None else table.get(name, -1)
+
+    def answer(self, rule, arg):
+        ga = _ga(rule.get_attrs, arg)
+        if rule.mark is not None and isinstance(ga, list) and ga[0] == "a":
+            self.mark_seeds.append((rule.mark, None if ga[1] is None else {k: json.loads(v) for k, v in ga[1]}))
+        return ga
+
+    def node(self, d):
+        nt = from_dom_mod.get_node_type(d)
+        if nt == 3:
+            return ["t", None if d.text is None else codec.units(d.text)]
+        if nt != 1:
+            return ["o"]
+        self.elements += 1
+        parser = self.parser
+        style = d.get("style") or ""
+        decls = []
+        if style:
+            flat = from_dom_mod.parse_styles(style)
+            for i in range(0, len(flat), 2):
+                decls.append([flat[i], flat[i + 1],
+                              [[k, self.answer(r, flat[i + 1])] for k, r in enumerate(parser._styles) if r.get_attrs is not None]])
+        cands = []
+        for k, r in enumerate(parser._tags):
+            if not (r.tag and from_dom_mod.matches(d, r.tag)
+                    and (r.namespace is None or (d.prefix and d.nsmap[d.prefix] == r.namespace))):
+                continue
+            kind, alt_tag, alt_kids, nodes = "children", "", [], []
+            if r.get_content is not None:
+                kind = "nodes"
+                nodes = [self.info.node(n) for n in r.get_content(d, self.schema).content]
+                self.features.add("get_content")
+            elif r.content_element is not None and callable(r.content_element):
+                kind = "alt"
+                e = r.content_element(d)
+                alt_tag, alt_kids = e.tag.lower(), [self.node(c) for c in e]
+                self.features.add("content_element")
+            ga = self.answer(r, d)
+            cands.append([k, ga, kind, alt_tag, alt_kids, nodes])
+            for f, on in (("ignore", r.ignore), ("close_parent", r.close_parent), ("non-consuming", r.consuming is False),
+                          ("context", r.context), ("get_attrs-false", ga is False), ("preserve_whitespace", r.preserve_whitespace is not None)):
+                if on:
+                    self.features.add("cand-" + f)
+        name = d.tag.lower()
+        if name in ("ul", "ol"):
+            seen_li = False
+            for c in d:
+                cn = c.tag.lower() if isinstance(c.tag, str) else None
+                if cn == "li":
+                    seen_li = len(c) > 0
+                elif cn in ("ul", "ol") and seen_li:
+                    self.features.add("list-child-after-li")
+        if name == "br":
+            self.features.add("br")
+        for dd in decls:
+            for k, r in enumerate(parser._styles):
+                if r.style.startswith(dd[0]) and (r.clear_mark is not None or r.ignore or r.consuming is False):
+                    self.features.add("style-" + ("clear_mark" if r.clear_mark is not None else "ignore" if r.ignore else "non-consuming"))
+        return ["e", name, decls, cands, [self.node(c) for c in d]]
+
+    def rules(self):
+        info = self.info
+        tags = [{"ctx": r.context or "", "node": self.ref(r.node, info.nid), "mark": self.ref(r.mark, info.mid),
+                 "attrs": None if r.get_attrs is not None else _enc_attrs(r.attrs), "ignore": bool(r.ignore),
+                 "skip": bool(r.skip), "closeParent": bool(r.close_parent), "consuming": r.consuming is not False,
+                 "pw": r.preserve_whitespace, "listTag": LIST_RULE_RE.match(r.tag) is not None} for r in self.parser._tags]
+        universe = {}
+        for name, attrs in self.mark_seeds:
+            if name in self.schema.marks:
+                try:
+                    m = self.schema.marks[name].create(attrs)
+                except ValueError:
+                    continue
+                universe[json.dumps(info.mark(m))] = m
+        styles = []
+        for r in self.parser._styles:
+            clear = None
+            if r.clear_mark is not None:
+                clear = [json.loads(k) for k, m in universe.items() if r.clear_mark(m)]
+            styles.append({"style": r.style, "ctx": r.context or "", "mark": self.ref(r.mark, info.mid),
+                           "attrs": None if r.get_attrs is not None else _enc_attrs(r.attrs), "ignore": bool(r.ignore),
+                           "clear": clear, "consuming": r.consuming is not False})
+        return tags, styles
+
+    def request(self, parent):
+        kids = [self.node(c) for c in parent]
+        tags, styles = self.rules()
+        info = self.info
+        return {"op": "domParse", "groups": [list(self.schema.nodes[n].groups) for n in info.node_names],
+                "wsPre": [self.schema.nodes[n].whitespace == "pre" for n in info.node_names],
+                "tags": tags, "styles": styles, "root": parent.tag.lower(), "kids": kids,
+                "_unsupported": self.unsupported, "_elements": self.elements, "_features": sorted(self.features)}
+
+
+def _no_ids(events):
+    """mark object identities renamed in order of first appearance (the two sides number them differently)"""
+    out, ren = [], {}
+    for e in events or []:
+        if e[0] in ("addPending", "removePending"):
+            out.append([e[0], ren.setdefault(e[1], len(ren))] + list(e[2:]))
+        else:
+            out.append(e)
+    return out
+
+
+def walk_request(sid, pc, is_slice):
+    """the model request of one recorded run, or None when the run used something outside the model"""
+    snap = pc._snapshot
+    if not snap or snap["_unsupported"] or not pc._supported:
+        return None
+    req = {k: v for k, v in snap.items() if not k.startswith("_")}
+    req["s"], req["slice"] = sid, is_slice
+    return req
+
+
+def walk_compare(ctx, replay, info, pc, st_real, out, kind):
+    """the model's whole parse against the real one: normalize_lists, the list of calls into the placement core, the
+    final document / fragment — or the class of the exception"""
+    ctx.count("walk:" + kind)
+    ctx.count("walk_elements", pc._snapshot["_elements"])
+    for f in pc._snapshot["_features"]:
+        ctx.count("walk_feature:" + f)
+    if out.get("normalizeLists") != pc.parser.normalize_lists:
+        ctx.mismatch("walk-normalize-lists", replay, pc.parser.normalize_lists, out.get("normalizeLists", out))
+        return
+    if st_real != "ok":
+        ctx.count("walk:real-" + st_real)
+        if out.get("err") != st_real:
+            ctx.mismatch("walk-outcome", replay, st_real, out.get("err", "ok"))
+        else:
+            ctx.count("walk:agree")
+        return
+    if "err" in out and out.get("events") is None:
+        ctx.mismatch("walk-outcome", replay, "ok", out)
+        return
+    want_ev, got_ev = _no_ids(pc._events), _no_ids(out.get("events"))
+    if want_ev != got_ev:
+        k = next((i for i, (a, b) in enumerate(zip(want_ev, got_ev)) if a != b), min(len(want_ev), len(got_ev)))
+        ctx.mismatch("walk-events", dict(replay, event_index=k, before=want_ev[max(0, k - 3):k]),
+                     want_ev[k] if k < len(want_ev) else None, got_ev[k] if k < len(got_ev) else None)
+        return
+    ctx.count("walk_events", len(want_ev))
+    res = pc._result
+    if isinstance(res, Node):
+        want, got = info.node(res), out.get("doc")
+    else:
+        want, got = info.frag(res), out.get("frag")
+    if got != want:
+        ctx.mismatch("walk-result", replay, want, got if got is not None else out)
+    else:
+        ctx.count("walk:agree")
+
+
+# a schema that uses every kind of parse rule the real parser supports: clear_mark / ignore / non-consuming style rules,
+# a mark with a shared default instance, ignore / close_parent / non-consuming tag rules, get_attrs answering False / None,
+# content_element (callable), get_content, all preserve_whitespace values, context restrictions, an explicit mark name
+def rules_schema():
+    nodes = {k: dict(v) for k, v in basic_schema.spec["nodes"].items()}
+    marks = {k: dict(v) for k, v in basic_schema.spec["marks"].items()}
+    nodes["paragraph"]["parseDOM"] = [{"tag": "p", "getAttrs": lambda d: False if d.get("class") == "no" else None}]
+    nodes["blockquote"]["parseDOM"] = [{"tag": "blockquote"},
+                                       {"tag": "blockquote.nc", "consuming": False, "priority": 60},
+                                       {"tag": "div.cp", "close_parent": True, "priority": 55},
+                                       {"tag": "div.ig", "ignore": True},
+                                       {"tag": "span.ig", "ignore": True}]
+    nodes["fig"] = {"content": "inline*", "group": "block",
+                    "parseDOM": [{"tag": "figure", "contentElement": lambda d: next((c for c in d if c.tag == "figcaption"), d)}],
+                    "toDOM": lambda _: ["figure", 0]}
+    nodes["gc"] = {"content": "inline*", "group": "block",
+                   "parseDOM": [{"tag": "div.gc", "getContent": lambda d, s: Fragment.from_([s.text("gc%d" % len(d)), s.node("hard_break")])},
+                                {"tag": "div.gcp", "getContent": lambda d, s: Fragment.empty}],
+                   "toDOM": lambda _: ["div", {"class": "gc"}, 0]}
+    nodes["pw"] = {"content": "inline*", "group": "block",
+                   "parseDOM": [{"tag": "div.pw", "preserveWhitespace": True}, {"tag": "div.pwf", "preserveWhitespace": "full"},
+                                {"tag": "div.pw0", "preserveWhitespace": False},
+                                {"tag": "p", "context": "blockquote/|pw/", "priority": 40}],
+                   "toDOM": lambda _: ["div", {"class": "pw"}, 0]}
+    marks["strong"]["parseDOM"] = [{"tag": "strong"}, {"tag": "b"}, {"style": "font-weight"},
+                                   {"style": "font-weight=400", "clear_mark": lambda m: m.type.name == "strong", "priority": 60},
+                                   {"style": "font-weight=normal", "clear_mark": lambda m: m.type.name == "strong", "priority": 60}]
+    marks["em"]["parseDOM"] = [{"tag": "i"}, {"tag": "em"}, {"style": "font-style=italic"},
+                               {"style": "font-style=normal", "clear_mark": lambda m: m.type.name in ("em", "hl"), "priority": 60},
+                               {"style": "display=none", "ignore": True},
+                               {"tag": "span.u", "mark": "u"}]
+    marks["u"] = {"parseDOM": [{"tag": "u"}, {"style": "text-decoration=underline", "consuming": False, "priority": 60}],
+                  "toDOM": lambda _, __: ["u", 0]}
+    marks["hl"] = {"attrs": {"color": {"default": "yellow"}}, "excludes": "",
+                   "parseDOM": [{"tag": "mark"}, {"tag": "span.hl", "getAttrs": lambda d: {"color": d.get("data-c")}},
+                                {"style": "background-color", "getAttrs": lambda v: False if v == "none" else {"color": v}},
+                                {"style": "text-decoration", "getAttrs": lambda v: None}],
+                   "toDOM": lambda m, _: ["mark", {"data-c": m.attrs["color"]}, 0]}
+    return Schema({"nodes": nodes, "marks": marks})
+
+
+RICH_CLASSES = ["no", "nc", "cp", "ig", "gc", "gcp", "pw", "pwf", "pw0", "u", "hl", "q"]
+RICH_STYLES = STYLES + ["font-weight: 400", "font-weight:normal; font-style:normal", "font-style: normal", "display: none",
+                        "text-decoration: underline", "text-decoration:none", "background-color: red", "background-color:none",
+                        "font-weight:bold;background-color: #ff0;text-decoration:underline", "font-weight:400;font-weight:bold"]
+RICH_TAGS = ["figure", "figcaption", "mark", "u", "div", "span", "blockquote", "p", "b", "em"]
+
+
+def gen_rich_html(rng, depth=0):
+    """gen_html plus the vocabulary of rules_schema(): class attributes, figure / figcaption, more style declarations"""
+    parts = []
+    for _ in range(rng.randint(0, 4 if depth else 5)):
+        r = rng.random()
+        if r < 0.28:
+            parts.append(rng.choice(WORDS))
+        elif r < 0.33:
+            parts.append(rng.choice([" ", "\n", "\n   ", "  ", "\r\n", "a\rb", "a&#13;b", "x&#13;&#10;"]))
+        elif r < 0.35:
+            parts.append("<!-- c -->")
+        else:
+            tag = rng.choice(RICH_TAGS) if rng.random() < 0.55 else rng.choice(BLOCK if rng.random() < 0.45 else INLINE)
+            attrs = ""
+            if tag == "a" and rng.random() < 0.8:
+                attrs += ' href="foo"'
+            if tag == "img" and rng.random() < 0.8:
+                attrs += ' src="img.png"'
+            if rng.random() < 0.45:
+                attrs += ' class="%s"' % rng.choice(RICH_CLASSES)
+                if rng.random() < 0.5:
+                    attrs += ' data-c="%s"' % rng.choice(["red", "yellow"])
+            if rng.random() < 0.35:
+                attrs += ' style="%s"' % rng.choice(RICH_STYLES)
+            if tag in ("hr", "br", "img"):
+                parts.append(f"<{tag}{attrs}>")
+            elif depth >= 4:
+                parts.append(f"<{tag}{attrs}>{rng.choice(WORDS)}</{tag}>")
+            else:
+                parts.append(f"<{tag}{attrs}>{gen_rich_html(rng, depth + 1)}</{tag}>")
+    return "".join(parts)
+
+
+# aimed inputs for the walk tie (lists to normalise, <br> fallbacks, whitespace modes, ignored node kinds)
+WALK_EDGE_HTML = [
+    "<ul><li>a</li><ul><li>b</li></ul></ul>", "<ul><li></li><ul><li>b</li></ul></ul>",
+    "<ul><li>a</li> <!--c--> <ul><li>b</li></ul>text<ol><li>c</li></ol><p>x</p><ol></ol></ul>",
+    "<ol><li>a</li><ol><li>b</li></ol><ol><li>c</li></ol><li>d</li><ul></ul></ol>", "<ul><ul><li>x</li></ul></ul>", "<ul></ul>",
+    "<p>a<br> b</p>", "<p>a <br>b<br></p>", "<br>", "<pre>a<br>b</pre>", "<pre>a\r\nb\rc\nd</pre>", "<pre> a  b </pre>",
+    "<p> a \r\n b </p> <p>\t</p>", "<p>a</p> x <p>b</p>", "<div> <p>a</p> </div>", "<em>a</em> <strong>b</strong>",
+    "<p>a<document-fragment>zz</document-fragment>b</p>", "<p>a<?php x ?>b<!-- c --></p>", "<script>x</script><style>y</style><p>z</p>",
+    "<title><br></title>", "<script><br></script>a", "<h1>a<p>b</p>c</h1>", "<blockquote>a<p>b</p>c</blockquote>",
+    "<li>a</li>", "<td>a</td>", "<hr><img src='x'><img>", "<a>bare</a><a href='h' title='t'>l</a>",
+    "<p><lxmltext>foo<b>x</b></lxmltext>bar</p>", "<b><p>a</p><p>b</p></b>", "<span style='font-weight:bold'><p>a</p>b</span>",
+    "<div class='cp'>a</div>", "<p>x<div class='cp'>a</div>y</p>", "<blockquote class='nc'><p>a</p></blockquote>",
+    "<figure>junk<figcaption>cap <b>b</b></figcaption>tail</figure>", "<figure>no caption <i>i</i></figure>",
+    "<div class='gc'><p>ignored</p></div>", "<div class='gcp'>x</div>", "<div class='pw'> a  b\n c </div>", "<div class='pwf'> a  b\r\n c </div>",
+    "<div class='pw0'> a  b\n c </div>", "<div class='pw'>a\rb\r\nc\n\rd</div>", "<pre>a\rb\n\rc</pre>",
+    "<div class='pw'>a&#13;b&#13;&#10;c&#10;&#13;d</div>", "<pre>a&#13;b&#13;&#10;c</pre>", "<p>a&#13;b &#13;&#9; c</p>", "<p>a&#13;b &#13;&#12; c&#11;</p>&#12;", "<div class='pwf'>a&#13;b&#13;&#10;c</div>", "<pre><div class='pw0'> a  b </div></pre>", "<p class='no'>not a paragraph</p>",
+    "<blockquote><p>in quote</p></blockquote><div class='pw'><p>in pw</p></div>", "<span class='ig'>gone<br></span><div class='ig'><br></div>",
+    "<b>x<span style='font-weight:400'>y</span>z</b>", "<b><span style='font-weight:normal'>y</span>z</b>",
+    "<em>m<span style='font-style:normal'></span></em>&amp;", "<mark>a<mark>b</mark>c</mark>", "<mark>a<span class='hl' data-c='red'>b<mark>c</mark></span></mark>",
+    "<span style='background-color: red'>a<span style='background-color:none'>b</span><span style='background-color: yellow'>c</span></span>",
+    "<span style='text-decoration: underline'>u</span><span style='text-decoration:none'>n</span>", "<p style='display:none'>hidden</p>v",
+    "<span class='u'>a<u>b</u></span>", "<i><mark><span style='font-style: normal'>x</span></mark></i>",
+]
+
+
+# rule sets the real parser does NOT survive (tie only: the model must fail the same way).  Reported as findings.
+def crash_parsers(schema):
+    def rule(**kw):
+        return from_dom_mod.ParseRule.from_json(kw)
+    base = DOMParser.schema_rules(schema)
+    return [
+        ("skip-true", DOMParser(schema, [rule(tag="div.sk", skip=True)] + base), '<div class="sk"><p>a</p></div>', "valueError"),
+        ("skip-true-inline", DOMParser(schema, [rule(tag="span", skip=True)] + base), '<p>x<span>a</span></p>', "valueError"),
+        ("unknown-node", DOMParser(schema, [rule(tag="div.un", node="nope")] + base), '<div class="un">a</div>', "internal"),
+        ("unknown-mark", DOMParser(schema, [rule(tag="span.un", mark="nope")] + base), '<p><span class="un">a</span></p>', "internal"),
+        ("style-rule-without-mark", DOMParser(schema, [rule(style="color", node="paragraph")] + base), '<p style="color: red">a</p>', "internal"),
+        ("text-node-rule", DOMParser(schema, [rule(tag="span.t", node="text")] + base), '<p><span class="t">a</span></p>', "valueError"),
+        ("get-attrs-raises", DOMParser(schema, [rule(tag="span.r", mark="em", getAttrs=lambda d: {}["x"])] + base), '<p><span class="r">a</span></p>', "internal"),
+        ("missing-required-attr", DOMParser(schema, [rule(tag="a.bare", mark="link")] + base), '<p><a class="bare">a</a></p>', "valueError"),
+        ("lxmltext-literal", DOMParser(schema, base), '<p>a<lxmltext></lxmltext>b</p>', "internal"),
+        ("no-crash-control", DOMParser(schema, [rule(tag="div.sk", close_parent=True)] + base), '<p>x</p><div class="sk"><p>a</p></div>', "ok"),
+    ]
+
+
+def rules_spec_tie(ctx, named_schemas):
+    """`DOMParser.schema_rules`: the order of the collected rules (priority, then marks before nodes, then spec order) and
+    which rules get their owner's name, against the model's `schemaRules`"""
+    reqs, wants = [], []
+    for name, schema in named_schemas:
+        specs, objs = [], []
+        for owner in list(schema.marks.values()) + list(schema.nodes.values()):
+            for r in owner.spec.get("parseDOM") or []:
+                pr = from_dom_mod.ParseRule.from_json(r)
+                specs.append([len(specs), pr.priority, bool(pr.mark), bool(pr.ignore), bool(pr.clear_mark)])
+                objs.append((owner.name, r))
+        real = DOMParser.schema_rules(schema)
+        # identify each collected rule with its spec entry: same owner order, from_json is deterministic
+        want = []
+        pool = [(i, from_dom_mod.ParseRule.from_json(r), o) for i, (o, r) in enumerate(objs)]
+        for rr in real:
+            for k, (i, pr, o) in enumerate(pool):
+                same = all(getattr(pr, f) == getattr(rr, f) or (f in ("node", "mark") and getattr(pr, f) is None)
+                           for f in ("tag", "namespace", "style", "priority", "consuming", "context", "node", "mark", "clear_mark",
+                                     "ignore", "close_parent", "skip", "attrs", "get_attrs", "content_element", "get_content",
+                                     "preserve_whitespace"))
+                if same:
+                    took = (rr.node == o or rr.mark == o) and pr.node is None and pr.mark is None
+                    want.append([i, bool(took)])
+                    pool.pop(k)
+                    break
+        reqs.append({"op": "schemaRules", "specs": specs})
+        wants.append((name, want))
+    outs = ctx.driver.run(reqs)
+    for req, (name, want), out in zip(reqs, wants, outs):
+        ctx.count("model_requests")
+        ctx.count("schema_rules_rules", len(want))
+        if out.get("ok") != want:
+            ctx.mismatch("schemaRules", dict(req, schema=name), want, out.get("ok", out))
+        else:
+            ctx.count("schema_rules:agree")
+
+
 def run(ctx):
     core.lean_phase(ctx)
     rng = ctx.rng
@@ -485,6 +866,15 @@ def run(ctx):
         infos[n] = schemas.by_name(n) if n != "fill" else codec.SchemaInfo(sch, "fill")
         parsers[n] = DOMParser.from_schema(sch)
     preqs, pmetas = [], []
+    wreqs, wmetas = [], []          # whole-parse requests of the DOM-walk model
+
+    def walk_case(replay, info, sid, pc, st_real, kind, is_slice=False):
+        req = walk_request(sid, pc, is_slice)
+        if req is None:
+            ctx.count("walk:not-modelled")
+            return
+        wreqs.append(req)
+        wmetas.append((replay, info, pc, st_real, kind))
     cinfo = infos["context"]
     ctx.guard(lambda: context_tie(ctx, [schemas.by_name("basic"), schemas.by_name("list"), cinfo, schemas.by_name("table"),
                                         schemas.by_name("marks-x")]), "context_tie")
@@ -509,6 +899,7 @@ def run(ctx):
         if st_r == "ok" and len(pcs) == 1 and pcs[0]._supported and doc_r.to_json() == j:
             preqs.append(placement_request(info, sid, pcs[0]))
             pmetas.append((replay, info, pcs[0], "parse"))
+            walk_case(replay, info, sid, pcs[0], st_r, "parse")
         else:
             ctx.count("placement:not-recorded")
         if rng.random() < 0.5:
@@ -516,6 +907,7 @@ def run(ctx):
             if st_s == "ok" and len(pcs) == 1 and pcs[0]._supported:
                 preqs.append(placement_request(info, sid, pcs[0]))
                 pmetas.append((dict(replay, slice=True, open=[sl.open_start, sl.open_end]), info, pcs[0], "parse_slice"))
+                walk_case(dict(replay, slice=True, open=[sl.open_start, sl.open_end]), info, sid, pcs[0], st_s, "parse_slice", True)
             else:
                 ctx.count("placement:slice-" + st_s)
         stn, node = outcome(lambda: Node.from_json(schema, j))
@@ -553,20 +945,111 @@ def run(ctx):
         if st_r == "ok" and len(pcs) == 1 and pcs[0]._supported:
             preqs.append(placement_request(sinfo, sid, pcs[0]))
             pmetas.append(({"schema": "strip", "html": html}, sinfo, pcs[0], "edge"))
+            walk_case({"schema": "strip", "html": html}, sinfo, sid, pcs[0], st_r, "edge")
             st_c, _ = outcome(doc_r.check)
             ctx.count("edge_case_real_doc_" + ("valid" if st_c == "ok" else "invalid"))
     infos["strip"] = sinfo
+    # ---- the rule-kind schema: every kind of parse rule the parser supports (validity oracle + whole-parse tie)
+    rinfo = codec.SchemaInfo(rules_schema(), "rules")
+    rparser = DOMParser.from_schema(rinfo.schema)
+    infos["rules"] = rinfo
+    for k in range(ctx.budget(220, 2200)):
+        if ctx.time_left() < 0:
+            break
+        html = gen_rich_html(rng) if k % 4 else gen_html(rng)
+        replay = {"schema": "rules", "html": html}
+        ctx.case(["parse", "rules", html], nontrivial=bool(html.strip()), sample={"op": "from_html", "schema": "rules", "html": html[:200]})
+        sid = ctx.driver.add_schema(rinfo)
+        dom = html_fragment(html)
+        (st_r, doc_r), pcs = recorded(rinfo, lambda: rparser.parse(dom))
+        ctx.count("parse:" + st_r)
+        if st_r != "ok":
+            ctx.violation("parse-" + ("hang" if st_r == "hang" else "raises"), f"parsing an HTML fragment did not return a document: {doc_r}", replay)
+            continue
+        if len(pcs) == 1:
+            walk_case(replay, rinfo, sid, pcs[0], st_r, "rules")
+        j = doc_r.to_json()
+        prob = validator(rinfo.schema).problem(j)
+        stc, err = outcome(doc_r.check)
+        if prob or stc != "ok":
+            ctx.violation("parse-invalid", f"the parsed document is not schema-valid: {prob or err}", dict(replay, doc=j))
+        if rng.random() < 0.3:
+            (st_s, sl), pcs = recorded(rinfo, lambda: rparser.parse_slice(dom))
+            if st_s == "ok" and len(pcs) == 1:
+                walk_case(dict(replay, slice=True, open=[sl.open_start, sl.open_end]), rinfo, sid, pcs[0], st_s, "parse_slice", True)
+    edge_infos = [(n, infos[n], parsers[n]) for n in ("basic", "list", "context", "fill")] + [("rules", rinfo, rparser)]
+    for html in WALK_EDGE_HTML:
+        for n, einfo, eparser in edge_infos:
+            sid = ctx.driver.add_schema(einfo)
+            dom = html_fragment(html)
+            (st_r, doc_r), pcs = recorded(einfo, lambda: eparser.parse(dom))
+            ctx.case(["parse-edge", n, html], sample=None)
+            if st_r != "ok":
+                ctx.violation("parse-" + ("hang" if st_r == "hang" else "raises"), f"parsing an HTML fragment did not return a document: {doc_r}",
+                              {"schema": n, "html": html})
+                continue
+            stc, err = outcome(doc_r.check)
+            if stc != "ok":
+                ctx.violation("parse-invalid", f"the parsed document is not schema-valid: {err}", {"schema": n, "html": html, "doc": doc_r.to_json()})
+            if len(pcs) == 1:
+                walk_case({"schema": n, "html": html}, einfo, sid, pcs[0], st_r, "aimed")
+            (st_s, sl), pcs = recorded(einfo, lambda: eparser.parse_slice(dom))
+            if st_s == "ok" and len(pcs) == 1:
+                walk_case({"schema": n, "html": html, "slice": True, "open": [sl.open_start, sl.open_end]}, einfo, sid, pcs[0], st_s, "parse_slice", True)
+    # rule sets the parser does not survive: the model must fail with the same class of exception
+    for cname, cparser, html, expect in crash_parsers(rinfo.schema):
+        sid = ctx.driver.add_schema(rinfo)
+        dom = html_fragment(html)
+        (st_r, _), pcs = recorded(rinfo, lambda: cparser.parse(dom))
+        ctx.count("crash_case:" + cname + ":" + st_r)
+        if st_r != expect:
+            ctx.notes.append(f"crash case {cname}: the real parser now answers {st_r} (was {expect})")
+        if len(pcs) == 1:
+            walk_case({"schema": "rules", "crash_case": cname, "html": html}, rinfo, sid, pcs[0], st_r, "crash-case")
+    # a schema without any finite document (x needs an x): filling recurses for ever — RecursionError in the real code, fuel
+    # exhaustion (`.internal`) in the model; the schema guard `fillOk` of parse_no_internal is false for it
+    xinfo = codec.SchemaInfo(Schema({"nodes": {"doc": {"content": "x+"}, "x": {"content": "x+", "parseDOM": [{"tag": "x"}]}, "text": {}}}), "self-filling")
+    infos["self-filling"] = xinfo
+    for html in ("", "<x></x>"):
+        sid = ctx.driver.add_schema(xinfo)
+        dom = html_fragment(html)
+        (st_r, _), pcs = recorded(xinfo, lambda: DOMParser.from_schema(xinfo.schema).parse(dom))
+        ctx.count("crash_case:self-filling:" + st_r)
+        if len(pcs) == 1:
+            walk_case({"schema": "self-filling", "html": html}, xinfo, sid, pcs[0], st_r, "crash-case")
+    ctx.guard(lambda: rules_spec_tie(ctx, parse_schemas + extra_schemas + [("rules", rinfo.schema), ("strip", sinfo.schema)]), "rules_spec_tie")
+    # the decidable schema hypotheses of the import theorems (Det, TextStable, LeafOk, fillOk) on every schema of the tie
+    hyps = {}
+    hyp_infos = list(infos.values())
+    houts = ctx.driver.run([{"op": "domHyps", "s": ctx.driver.add_schema(i)} for i in hyp_infos])
+    for i, o in zip(hyp_infos, houts):
+        h = o.get("ok") or {}
+        hyps[i.name] = h
+        allh = h.get("det") and h.get("textStable") and h.get("leafOk")
+        ctx.count("theorem_hypotheses_hold" if allh else "theorem_hypotheses_fail:" + i.name)
+        if not allh:
+            ctx.notes.append(f"schema {i.name}: Det={h.get('det')} TextStable={h.get('textStable')} LeafOk={h.get('leafOk')} — "
+                             "parse_valid / placement_finish_valid do not apply to it (placement_finish_marks does; placement_match_coherent needs Det)")
+        ctx.count("no_internal_schema_guard_holds" if h.get("det") and h.get("fillOk") else "no_internal_schema_guard_fails:" + i.name)
+    if wreqs:
+        outs = ctx.driver.run(wreqs)
+        for (replay, info, pc, st_real, kind), out in zip(wmetas, outs):
+            ctx.count("model_requests")
+            walk_compare(ctx, replay, info, pc, st_real, out, kind)
+            # parse_no_internal: when its decidable guards hold of schema, rules, DOM and oracle, the real parse did not die
+            # with an internal error
+            g, sh = out.get("guards") or {}, hyps.get(info.name, {})
+            failing = [k for k, v in (("rulesOk", g.get("rulesOk")), ("domOk", g.get("domOk")), ("det", sh.get("det")),
+                                      ("fillOk", sh.get("fillOk"))) if not v]
+            if not failing:
+                ctx.count("no_internal_guards_hold")
+                if st_real == "internal":
+                    ctx.mismatch("parse_no_internal", replay, st_real, "the guards of parse_no_internal hold")
+            else:
+                ctx.count("no_internal_guards_fail:" + "+".join(failing))
+            if kind == "parse_slice" and "open" in out and out["open"] != replay["open"]:
+                ctx.mismatch("walk-slice-open", replay, replay["open"], out["open"])
     if preqs:
-        # the decidable schema hypotheses of the placement theorems (Det, TextStable) on every schema of the tie
-        hyp_infos = list(infos.values())
-        houts = ctx.driver.run([{"op": "domHyps", "s": ctx.driver.add_schema(i)} for i in hyp_infos])
-        for i, o in zip(hyp_infos, houts):
-            h = o.get("ok") or {}
-            allh = h.get("det") and h.get("textStable") and h.get("leafOk")
-            ctx.count("theorem_hypotheses_hold" if allh else "theorem_hypotheses_fail:" + i.name)
-            if not allh:
-                ctx.notes.append(f"schema {i.name}: Det={h.get('det')} TextStable={h.get('textStable')} LeafOk={h.get('leafOk')} — "
-                                 "placement_finish_valid does not apply to it (placement_finish_marks does; placement_match_coherent needs Det)")
         outs = ctx.driver.run(preqs)
         for (replay, info, pc, kind), out in zip(pmetas, outs):
             ctx.count("model_requests")
@@ -618,10 +1101,11 @@ def run(ctx):
         rule="a case is a generated HTML fragment (block/inline/list/table/ignorable vocabulary, random nesting, whitespace, style "
              "attributes, missing attributes, comments) parsed under the basic / list / context-rule schema, or a generated valid "
              "document of the bundled schemas serialised and — when whitespace-normal with attributes the rules carry — parsed back",
-        level_note="partial: termination and crash-freedom of DOM walking, rule/selector/regex matching and lxml parsing live in external "
-                   "C libraries and `re` and are decided by search only; modelled and tied on the import side: context expressions "
-                   "(matches_context, exact) and the placement core of ParseContext/NodeContext (recorded-event tie: the real parse's "
-                   "calls into the core are replayed through the model, per-event observations and the final document compared)")
+        level_note="partial: lxml parsing, selector matching (cssselect), the style-attribute regex and rule callbacks live outside the "
+                   "model and enter it as an oracle carried in the input; modelled and tied on the import side: the whole DOM walk of "
+                   "DOMParser.parse / parse_slice over an oracle-annotated abstract DOM (exact: the list of calls into the placement "
+                   "core and the final document), context expressions (matches_context, exact), the placement core of "
+                   "ParseContext/NodeContext (recorded-event tie) and schema_rules ordering")
 
 
 if __name__ == "__main__":
